@@ -21,6 +21,16 @@ import (
 
 const VerifRoot = "/verif"
 
+// OutRoot is where evidence and replay files are written: /verif, unless
+// VERIF_OUT redirects them (used when a seeded change is evaluated in a
+// scratch copy so that the committed evidence is not touched).
+func OutRoot() string {
+	if d := os.Getenv("VERIF_OUT"); d != "" {
+		return d
+	}
+	return VerifRoot
+}
+
 type TLCResult struct {
 	Generated int
 	Distinct  int
